@@ -123,6 +123,18 @@ func genSpec(g *ev.RNG, hostile bool) spec {
 			ns = 1
 		}
 		seen := map[string]bool{}
+		// two label sets that only differ in where a separator-like character
+		// sits (any joining of the values with that character makes them equal)
+		var shifted [][]string
+		if len(m.Keys) >= 2 && ns >= 2 && g.Intn(4) == 0 {
+			sep := ev.PickOne(g, []string{",", " ", ";", "|", ":", "/", "-", "=", "\"", "\\", "\x00", "\n", "}{", "\t"})
+			a := []string{"p", "q" + sep + "r"}
+			b := []string{"p" + sep + "q", "r"}
+			for len(a) < len(m.Keys) {
+				a, b = append(a, "z"), append(b, "z")
+			}
+			shifted = [][]string{a, b}
+		}
 		for j := 0; j < ns; j++ {
 			var ls lset
 			for range m.Keys {
@@ -131,6 +143,9 @@ func genSpec(g *ev.RNG, hostile bool) spec {
 					v = ev.PickOne(g, []string{"\xff", "a\xffb", "\xc3", "ok\x80"})
 				}
 				ls.Labels = append(ls.Labels, v)
+			}
+			if j < len(shifted) {
+				ls.Labels = shifted[j]
 			}
 			k := strings.Join(ls.Labels, "\x00")
 			if seen[k] {
